@@ -20,6 +20,11 @@ implementation's own output) are in the `Spec` sections.
 -/
 namespace C17
 
+/-- no element occurs twice -/
+def nodupB : List Nat → Bool
+  | [] => true
+  | x :: xs => !xs.contains x && nodupB xs
+
 /-! ## LKH -/
 namespace Lkh
 
@@ -226,9 +231,7 @@ def reachSet (nb : Nat → List Nat) (minPts : Nat) : Nat → List Nat → List 
   | r + 1, s => reachSet nb minPts r (reachStep nb minPts s)
 
 /-- pairwise disjoint clusters, no point twice -/
-def specDisjoint (cs : List (List Nat)) : Bool :=
-  let all := cs.flatten
-  (List.range all.length).all (fun i => (List.range i).all (fun k => all[i]? != all[k]?))
+def specDisjoint (cs : List (List Nat)) : Bool := nodupB cs.flatten
 
 /-- every cluster is grown from a core point of the input -/
 def specSeedCore (nb : Nat → List Nat) (minPts : Nat) (points : List Nat) (cs : List (List Nat)) : Bool :=
@@ -352,7 +355,7 @@ def specPartition (data : List Nat) (cl : Clusters) : Bool :=
   let all := cl.flatMap (·.2)
   all.length == data.length && data.all (fun x => all.count x == data.count x) &&
     all.all (fun x => data.contains x) &&
-    (List.range cl.length).all (fun i => (List.range i).all (fun k => (cl[i]?.map (·.1)) != (cl[k]?.map (·.1)))) &&
+    nodupB (cl.map (·.1)) &&
     cl.all (fun kv => !kv.2.isEmpty)
 
 /-- no point is closer to another cluster's medoid than to its own -/
